@@ -4,7 +4,7 @@
 // CFG 2: GLM_FORCE_SWIZZLE + GLM_FORCE_INTRINSICS -> operator swizzles (member objects; on GCC glm enables them
 //        only when a SIMD architecture is selected), incl. assignment through writable swizzles
 // CONFIGS 3
-// NPARTS 13
+// NPARTS 16
 #ifndef CFG
 #define CFG 0
 #endif
@@ -205,6 +205,43 @@ int main(int argc, char** argv) {
 # endif
 # if CFG == 2 && IN_PART(12)
 #  include "gen/C17_asg.inc"
+# endif
+  // operator-form swizzles of ALIGNED vectors have SSE specialisations of their own (type_vec_simd.inl: float, int, uint) which the symbolic
+  // element type never reaches: every member swizzle of every letter set is read on aligned float / int / uint / double vectors of the real
+  // build and compared with the named components (exploration on the real code; parts 13-15 = the three letter sets)
+# if CFG == 2 && (IN_PART(13) || IN_PART(14) || IN_PART(15))
+#  undef SWZM
+#  if IN_PART(13)
+#   define SWZ_SET 0
+#  elif IN_PART(14)
+#   define SWZ_SET 1
+#  else
+#   define SWZ_SET 2
+#  endif
+#  define SWZM(SET, L, N, CODE, NAME) if (SET == SWZ_SET || PART < 0) { \
+    { auto r = af##L.NAME(); for (int j = 0; j < N; ++j) bad += !(r[j] == af##L[(CODE >> (2 * j)) & 3]); } \
+    { auto r = ai##L.NAME(); for (int j = 0; j < N; ++j) bad += !(r[j] == ai##L[(CODE >> (2 * j)) & 3]); } \
+    { auto r = au##L.NAME(); for (int j = 0; j < N; ++j) bad += !(r[j] == au##L[(CODE >> (2 * j)) & 3]); } \
+    { auto r = ad##L.NAME(); for (int j = 0; j < N; ++j) bad += !(r[j] == ad##L[(CODE >> (2 * j)) & 3]); } }
+  add_prop(nm("p_swz_aligned", {SWZ_SET}), 4, 0.0, 0.0, [](auto const* x) { using T = TY(x); int bad = 0;
+    double v[4]; for (int i = 0; i < 4; ++i) v[i] = std::floor(std::fmod(std::fabs((double)x[i]) * 40.0, 100.0)) * 4 + i;      // four distinct small non-negative integers
+    glm::vec<2, float, glm::aligned_highp> af2((float)v[0], (float)v[1]); glm::vec<3, float, glm::aligned_highp> af3((float)v[0], (float)v[1], (float)v[2]); glm::vec<4, float, glm::aligned_highp> af4((float)v[0], (float)v[1], (float)v[2], (float)v[3]);
+    glm::vec<2, int, glm::aligned_highp> ai2((int)v[0], (int)v[1]); glm::vec<3, int, glm::aligned_highp> ai3((int)v[0], (int)v[1], (int)v[2]); glm::vec<4, int, glm::aligned_highp> ai4((int)v[0], (int)v[1], (int)v[2], (int)v[3]);
+    glm::vec<2, glm::uint, glm::aligned_highp> au2((glm::uint)v[0], (glm::uint)v[1]); glm::vec<3, glm::uint, glm::aligned_highp> au3((glm::uint)v[0], (glm::uint)v[1], (glm::uint)v[2]); glm::vec<4, glm::uint, glm::aligned_highp> au4((glm::uint)v[0], (glm::uint)v[1], (glm::uint)v[2], (glm::uint)v[3]);
+    glm::vec<2, double, glm::aligned_highp> ad2(v[0], v[1]); glm::vec<3, double, glm::aligned_highp> ad3(v[0], v[1], v[2]); glm::vec<4, double, glm::aligned_highp> ad4(v[0], v[1], v[2], v[3]);
+#  include "gen/C17_mem_0.inc"
+#  include "gen/C17_mem_1.inc"
+#  include "gen/C17_mem_2.inc"
+#  include "gen/C17_mem_3.inc"
+#  include "gen/C17_mem_4.inc"
+#  include "gen/C17_mem_5.inc"
+#  include "gen/C17_mem_6.inc"
+#  include "gen/C17_mem_7.inc"
+#  include "gen/C17_mem_8.inc"
+#  include "gen/C17_mem_9.inc"
+#  include "gen/C17_mem_10.inc"
+#  include "gen/C17_mem_11.inc"
+    return (T)bad; });
 # endif
 #endif
   return unit_main(argc, argv);
